@@ -37,6 +37,29 @@ without a counterpart (unnameable()):
   a finding of the unmodified tree; [O] and [Gfa:P] are refused there (Ordered._to_gfa1_a checks each captured
   segment's name).
 
+SEGMENTS WHOSE DECLARED LENGTH IS NOT THE LENGTH OF THEIR SEQUENCE.  In GFA2 `S a 12 ACGTACGT` is legal (slen is the
+length the coordinates of edges and fragments count in; the sequence string may be shorter or longer) and gfapy accepts
+it at every level.  GFA1 has one length per segment: LN must equal the length of the sequence when both are given
+(Segment.validate_length).  Such a segment (mismatched(): exhaustive cases with a shorter / longer sequence, alone, under
+a dovetail at its begin / at its end, under a containment, in a group; random: a fifth of the GFA2 cases get one) is a
+record without a counterpart:
+  * whole graph: Gfa.to_gfa1_s()/to_gfa1() may raise a gfapy.Error.  If a text comes back, every segment in it is
+    compared with the source as usual: a segment written with another length (`S a ACGTACGT LN:i:8`: the length of the
+    string taken for the declared one - links on it then lie elsewhere) or another sequence is
+    segment-length-changed / segment-sequence-changed.  An S line for such a segment at all is
+    slen-mismatch-translated[Gfa:S] (with the length kept, `S a ACGTACGT LN:i:12` is not a valid GFA1 line; the text is
+    not offered to the validity check again).  If the segment is dropped, its edges and the groups over it are expected
+    to be dropped with it.
+  * line level: S.to_gfa1()/to_gfa1_s() may raise a gfapy.Error; a line that comes back is compared with the source
+    (segment-length-changed / segment-sequence-changed) and is slen-mismatch-translated[S].
+  On the unmodified tree to_gfa1() refuses such a segment at vlevel >= 1 (the GFA1 line is built and validated) but
+  to_gfa1_s() at every level, to_gfa1() at vlevel 0 and hence Gfa.to_gfa1_s() write `S a ACGTACGT LN:i:12`:
+  signatures slen-mismatch-translated[S] and [Gfa:S] are a finding of the unmodified tree (listed last among the
+  failures of a case).
+  gfapy checks the `$` of a position against the length of the sequence string, not against slen (validate_positions):
+  at vlevel >= 1 it refuses a source in which an edge ends at the declared end of such a segment; the generator puts
+  such edges into documents parsed at vlevel 0 and otherwise prefers segments on which no position carries a `$`.
+
 NOT CHECKED
   * links whose overlap covers a whole segment (reflen >= |from| or querylen >= |to|): in GFA2 they look like
     containments (DESIGN §7, note after the table) -- such links, and paths through them, are skipped;
@@ -66,8 +89,11 @@ RULE = ("exhaustive: every single-link GFA1 graph over 4 orientation pairs x 14 
         "paths walking 1-3 edges in either direction, F/G/U/custom records, tags; segment names that are unusual in both "
         "versions, and GFA2 identifiers without a GFA1 spelling (leading `*`/`=`, `+,`/`-,` inside) on segments, under edges "
         "and under ordered groups (exhaustive: 10 names x {`*`, CIGAR} x 7 group shapes; random: 15% of the cases): "
-        "refused or dropped, never written. Non-trivial: the graph has an edge whose "
-        "alignment is asymmetric (not equal to its own complement), a path, or a segment without a GFA1 name.")
+        "refused or dropped, never written; GFA2 segments whose sequence string is shorter or longer than the declared length "
+        "(exhaustive: 2 x 6 shapes; random: a fifth of the GFA2 cases): refused or dropped, never written with another length. "
+        "Non-trivial: the graph has an edge whose "
+        "alignment is asymmetric (not equal to its own complement), a path, a segment without a GFA1 name, or a segment "
+        "whose declared length differs from the length of its sequence.")
 
 INV = {"+": "-", "-": "+"}
 
@@ -396,6 +422,19 @@ def _ex():
             for items in ("%s+" % n, "%s+ e1+ C+" % n, "%s+ C+" % n, "C- e1- %s-" % n, "%s+ e1+ C+ e6+ D+ e2+ %s+" % (n, n),
                           "%s+ C+ D+" % n, "A+ e3+ B+ e4+ C+ e6+ D+ e2+ %s+" % n):
                 X.append({"dir": "2to1", "lines": S + E + ["O\tp\t" + items]})
+    # a segment whose sequence string is shorter / longer than its declared length: alone, under a dovetail at its
+    # begin (accepted by gfapy at every level), under a dovetail at its declared end and as the contained segment of a
+    # containment (`$` at slen: accepted at vlevel 0 only), in a group
+    for seq in ("ACGTACGT", "ACGTTGCAACGTAC"):
+        A = "S\tA\t12\t%s\txx:i:5" % seq
+        B = seg2("B", 10, False)
+        for vls, rest in (((1, 3, 0, 2), []),
+                          ((1, 3, 0, 2), [B, "E\te1\tB+\tA+\t5\t10$\t0\t4\t3M1D1M"]),
+                          ((3, 1, 0, 2), [B, "E\te1\tB+\tA+\t5\t10$\t0\t4\t3M1D1M", "O\tp\tB+ e1+ A+"]),
+                          ((0, 0, 0, 0), [B, "E\te1\tA+\tB+\t8\t12$\t0\t4\t4M", "O\tp\tA+ e1+ B+"]),
+                          ((0, 0, 0, 0), [B, "E\t*\tA-\tB+\t8\t12$\t6\t10$\t1M1I1D2M"]),
+                          ((0, 0, 0, 0), [seg2("C", 20, True), "E\te1\tC+\tA+\t2\t14\t0\t12$\t12M"])):
+            X.append({"dir": "2to1", "lines": [A] + rest, "vlevels": vls})
     X.append({"dir": "1to2", "lines": ["H\tVN:Z:1.0\txx:i:1", seg1("A", 5, True), "# comment"]})
     X.append({"dir": "2to1", "lines": ["H\tVN:Z:2.0\tTS:i:5", seg2("A", 5, True), "# comment"]})
     return X
@@ -411,7 +450,7 @@ def n_exhaustive(tier):
 def exhaustive_case(i, tier):
     k = 2 if tier != "thorough" else 4
     c = dict(EX[i // k])
-    c["vlevel"] = [1, 3, 0, 2][i % k]
+    c["vlevel"] = c.pop("vlevels", [1, 3, 0, 2])[i % k]
     return c
 
 
@@ -573,9 +612,44 @@ def gen_case(rng, tier, i):
     if k < 0.55:
         return {"dir": "1to2", "lines": gen_gfa1(rng, NAMES + ODD_NAMES), "vlevel": rng.pick([0, 1, 1, 2, 3])}
     if k < 0.85:
-        return {"dir": "2to1", "lines": gen_gfa2(rng), "vlevel": rng.pick([0, 1, 1, 2, 3])}
-    # GFA2 graphs some of whose segment names are unusual or have no GFA1 spelling
-    return {"dir": "2to1", "lines": gen_gfa2(rng, name_pool(rng)), "vlevel": rng.pick([0, 1, 1, 2, 3])}
+        c = {"dir": "2to1", "lines": gen_gfa2(rng), "vlevel": rng.pick([0, 1, 1, 2, 3])}
+    else:
+        # GFA2 graphs some of whose segment names are unusual or have no GFA1 spelling
+        c = {"dir": "2to1", "lines": gen_gfa2(rng, name_pool(rng)), "vlevel": rng.pick([0, 1, 1, 2, 3])}
+    # a fifth of the GFA2 graphs: one segment gets a sequence string that is shorter or longer than its declared length
+    # (drawn after everything else: the other cases are the ones generated before)
+    if rng.chance(0.2):
+        mismatch_one(rng, c)
+    return c
+
+
+def mismatch_one(rng, case):
+    """give one segment of a GFA2 case a sequence string whose length is not slen.  slen and every position stay as they
+    are.  gfapy wants the `$` of a position at the end of the *string* (validate_positions), so at vlevel >= 1 a segment
+    is preferred on which no position carries a `$`; if there is none the document is parsed at vlevel 0"""
+    L = case["lines"]
+    cand = [j for j, l in enumerate(L) if l.startswith("S\t") and M.name1_ok(l.split("\t")[1])] or \
+           [j for j, l in enumerate(L) if l.startswith("S\t")]
+    if not cand:
+        return
+
+    def dollar_on(name):
+        for l in L:
+            f = l.split("\t")
+            if f[0] == "E" and ((f[2][:-1] == name and "$" in f[4] + f[5]) or (f[3][:-1] == name and "$" in f[6] + f[7])):
+                return True
+            if f[0] == "F" and f[1] == name and "$" in f[3] + f[4]:
+                return True
+        return False
+    free = [j for j in cand if not dollar_on(L[j].split("\t")[1])]
+    if case["vlevel"] >= 1 and not free and rng.chance(0.8):
+        case["vlevel"] = 0
+    j = rng.pick(free if (free and (case["vlevel"] >= 1 or rng.chance(0.3))) else cand)
+    f = L[j].split("\t")
+    n = int(f[2])
+    m = rng.pick([x for x in (n - 4, n - 2, n - 1, n + 1, n + 2, n + 5) if x >= 1])
+    f[3] = ("ACGTTGCAACGT" * 3)[:m]
+    L[j] = "\t".join(f)
 
 
 def asym(c):
@@ -598,6 +672,8 @@ def nontrivial(case):
             return True
         if f[0] == "S" and case["dir"] == "2to1" and not M.name1_ok(f[1]):
             return True
+        if f[0] == "S" and case["dir"] == "2to1" and f[3] != "*" and len(f[3]) != int(f[2]):
+            return True
     return False
 
 
@@ -614,6 +690,8 @@ def tags(case):
             t.append("P:" + ("one" if n == 1 and k == 0 else "circular" if n == k else "linear"))
         if f[0] == "S" and f[1] not in NAMES:
             t.append("name:" + ("odd" if M.name1_ok(f[1]) else "no-gfa1"))
+        if f[0] == "S" and case["dir"] == "2to1" and f[3] != "*" and len(f[3]) != int(f[2]):
+            t.append("S:seq-shorter-than-slen" if len(f[3]) < int(f[2]) else "S:seq-longer-than-slen")
     if case["dir"] == "2to1":
         bad = unnameable(parse2(case["lines"]))
         if bad["O"]:
@@ -810,7 +888,9 @@ def oracle(case):
     pairs = [frozenset((e["s1"], e["s2"])) for e in Dsrc["E"]] if d == "2to1" else []
     parallel = len(set(pairs)) != len(pairs)
     bad = unnameable(Dsrc) if d == "2to1" else {"S": set(), "E": set(), "O": set()}
-    has_orphans = d == "2to1" and (parallel or Dsrc["F"] or Dsrc["G"] or Dsrc["U"] or Dsrc["other"] or bad["S"] or bad["O"] or
+    # segments whose declared length is not the length of their sequence string: no GFA1 segment stands for them
+    mism = (mismatched(Dsrc) - bad["S"]) if d == "2to1" else set()
+    has_orphans = d == "2to1" and (parallel or Dsrc["F"] or Dsrc["G"] or Dsrc["U"] or Dsrc["other"] or bad["S"] or bad["O"] or mism or
                                    any(e_kind(e, lens) == "I" or isinstance(aln_of(e["aln"]), tuple) for e in Dsrc["E"]))
     if parallel:
         return []          # two GFA2 edges between the same pair of segments: GFA1 has one link per pair of ends -- not judged
@@ -824,12 +904,28 @@ def oracle(case):
             texts.append((how, T))
     for how, T in texts:
         tl = [l for l in T.split("\n") if l != ""]
-        if bad["S"] or bad["O"]:
+        if bad["S"] or bad["O"] or mism:
             # what has no GFA1 spelling must be absent; the rest is compared as usual
-            tl_rest, nbad = check_unnameable_absent(F, Dsrc, bad, tl, how)
+            Dcmp, tl_rest, nbad = Dsrc, tl, 0
+            if bad["S"] or bad["O"]:
+                tl_rest, nbad = check_unnameable_absent(F, Dsrc, bad, tl, how)
+                Dcmp = without_unnameable(Dsrc, bad)
+            if mism:
+                # a segment whose declared length is not the length of its sequence: if it is written, it is compared
+                # like any other (the length and the sequence must be the source's) and reported as translated; if it
+                # is dropped, its edges and the groups over them are expected to be dropped with it
+                written = {ln.split("\t")[1] for ln in tl_rest if ln.startswith("S\t") and len(ln.split("\t")) > 1} & mism
+                for n in sorted(written):
+                    nbad += 1
+                    F.append("slen-mismatch-translated[Gfa:S]: %s writes %r for %r: the declared length %d is not the length %d "
+                             "of the sequence, no GFA1 segment stands for it (dropped or refused)"
+                             % (how, [ln for ln in tl_rest if ln.split("\t")[:2] == ["S", n]][0], src_line(src, "S", n),
+                                Dsrc["S"][n]["len"], len(Dsrc["S"][n]["seq"])))
+                if mism - written:
+                    Dcmp = without_unnameable(Dcmp, dependents(Dcmp, mism - written))
             if nbad == 0:
                 check_valid(F, "\n".join(tl), tv, how)
-            check_2to1(F, without_unnameable(Dsrc, bad), lens, tl_rest, how)
+            check_2to1(F, Dcmp, lens, tl_rest, how)
             continue
         check_valid(F, "\n".join(tl), tv, how)
         if d == "1to2":
@@ -873,6 +969,17 @@ def oracle(case):
                      (rt == "O" and group_is_unnameable(f[2].split(" "), bad))
             if rt == "O" and f[1] in bad["O"] and not noname:
                 orphan = True       # a group over an edge that is not a dovetail: no GFA1 path stands for it
+            if rt == "S" and f[1] in mism:
+                # refused, or at least never written with another length or sequence
+                for m in ("to_gfa1", "to_gfa1_s"):
+                    st, r = conv(F, "S-line.%s()" % m, getattr(l, m))
+                    if st == "ok" and str(r) != "":
+                        got = parse1([str(r)])["S"] if str(r).split("\t")[0] == "S" and len(str(r).split("\t")) > 2 else {}
+                        compare_segments(F, {f[1]: Dsrc["S"][f[1]]}, got, "S-line.%s()" % m)
+                        F.append("slen-mismatch-translated[S]: %s() of %r gives %r instead of an error (the declared length %d is "
+                                 "not the length %d of the sequence: no GFA1 segment stands for it)"
+                                 % (m, str(l), str(r), Dsrc["S"][f[1]]["len"], len(Dsrc["S"][f[1]]["seq"])))
+                continue
             if not (orphan or noname):
                 continue
             for m in ("to_gfa1", "to_gfa1_s"):
@@ -890,8 +997,24 @@ def oracle(case):
             seen.add(s); out.append(f)
     # the S and E conversions that write a name unchecked fire in every case with such a name (finding of the
     # unmodified tree): listed last, so that summaries by first failure show whatever else is wrong
-    out.sort(key=lambda f: 1 if re.match(r"unnameable-translated\[(Gfa:)?[SELC]\]", f) else 0)
+    out.sort(key=lambda f: 1 if re.match(r"(unnameable-translated\[(Gfa:)?[SELC]\]|slen-mismatch-translated\[)", f) else 0)
     return out
+
+
+def mismatched(D2):
+    """names of the GFA2 segments whose sequence string has another length than the one they declare"""
+    return {n for n, x in D2["S"].items() if x["seq"] != "*" and len(x["seq"]) != x["len"]}
+
+
+def dependents(D2, names):
+    """what goes when the segments `names` go: their edges, the ordered groups over them (shape of unnameable())"""
+    dep = {"S": set(names), "E": {(e["id"] or e["text"]) for e in D2["E"] if e["s1"] in names or e["s2"] in names}, "O": set()}
+    dep["O"] = {o["name"] for o in D2["O"] if group_is_unnameable(["%s%s" % it for it in o["items"]], dep)}
+    return dep
+
+
+def src_line(src, rt, name):
+    return ([l for l in src if l.split("\t")[:2] == [rt, name]] or [None])[0]
 
 
 def unnameable(D2):
